@@ -44,13 +44,13 @@ def pair(cfg, c, seed):
             bad.append(("particles-changed", f"log-likelihoods of iteration {t + 1} differ beyond the shift"))
             break
     ea, eb = np.array(Ha["ess"], float), np.array(Hb["ess"], float)
-    if np.max(np.abs(ea - eb) / np.maximum(1, ea)) > 1e-6:
+    if np.max(np.abs(ea - eb) / np.maximum(1, ea)) > 1e-8:
         bad.append(("ess-changed", f"ESS sequence differs: {ea[:6]} vs {eb[:6]}"))
-    if len(A["w"]) != len(B["w"]) or not np.allclose(A["w"], B["w"], rtol=1e-6, atol=1e-15):
+    if len(A["w"]) != len(B["w"]) or not np.allclose(A["w"], B["w"], rtol=1e-8, atol=1e-18):
         bad.append(("weights-changed", "normalised posterior weights differ"))
     za, zb = np.array(Ha["logz"], float), np.array(Hb["logz"], float)
     dz = (zb - za) - bb * c
-    tol = 1e-6 * (1 + abs(c))
+    tol = 1e-9 * (1 + abs(c))
     if np.max(np.abs(dz)) > tol:
         j = int(np.argmax(np.abs(dz)))
         bad.append(("logz-shift", f"recorded logZ at iteration {j + 1} (beta={bb[j]:.6g}) moved by {zb[j] - za[j]:.9g} instead of beta*c={bb[j] * c:.9g}"))
@@ -86,6 +86,14 @@ def run():
             seeds = [ck.subseed("s", i, j, r) % 10 ** 6 for r in range(4)]
             cfg2 = {k: v for k, v in cfg.items() if k != "seed"}
             tasks.append(("tvf.checks.c10:cell", dict(cfg=cfg2, c=float(c), seeds=seeds), None))
+    # long histories (> 4096 stored samples) and shifts that are not on any decimal lattice
+    import math
+    for j, (c, kern) in enumerate(ck.pick([(math.pi * 100, "tpcn"), (-math.e, "rwm")], [(math.pi * 100, "tpcn"), (-math.e, "rwm"), (1 / 3, "tpcn"), (-math.sqrt(2) * 300, "rwm")])):
+        big = dict(target=["gauss2", "bimodal"][j % 2], N=256, n_total=4096, kernel=kern, resample=["mult", "syst"][j % 2], clustering=bool(j % 2), mode="vec")
+        tasks.append(("tvf.checks.c10:cell", dict(cfg=big, c=float(c), seeds=[ck.subseed("big", j, r) % 10 ** 6 for r in range(4)]), None))
+    for i in range(len(tasks)):
+        if i % 3 == 1:     # a third of the small cells use an irrational shift as well
+            tasks[i][1]["c"] = float(tasks[i][1]["c"] * math.sqrt(2) / 1.4)
     for i, st, val in farm.run(tasks, timeout=900, progress="C10"):
         kw = tasks[i][1]
         if st == "timeout":
@@ -103,5 +111,5 @@ def run():
     return ck.finish(
         rule="configurations from runs.small_cfg (kernel x resampler x clustering x vec/scalar/blobs x target) x metric mode x shifts in "
              "{+-1e3, +-37.5, 1e-3, -0.731, 512, -999.99}; pairs run under one seed; non-trivial = more than two iterations",
-        assumptions=["particles compared with atol 1e-9 (RWM step-size adaptation carries 1e-16 rounding differences), discrete structure exactly"],
+        assumptions=["particles compared with atol 1e-9 (RWM step-size adaptation carries 1e-16 rounding differences), weights/ESS rtol 1e-8, logZ shift 1e-9(1+|c|), discrete structure exactly; a mismatch must reproduce on 2 of 3 further seeds"],
     )
